@@ -270,7 +270,15 @@ func treeCase(r *sim.R, k int) {
 		} else if len(leaves) > 0 {
 			p := leaves[t.Choose(len(leaves), "overlap-leaf")]
 			in = world.Render(a, world.RepGeneric, nil).(map[string]interface{})
-			switch t.Choose(4, "overlap-kind") {
+			switch t.Choose(5, "overlap-kind") {
+			case 4:
+				// a setting below a top-level setting whose value is a reference to an object: that
+				// object is not an object of this input, the dotted key defines the setting twice
+				in["zk"] = "${zref}"
+				in["zk.q.zz"] = "below"
+				in["zref"] = map[string]interface{}{"q": map[string]interface{}{"z": uint64(1)}}
+				opts = append(opts, ucfg.VarExp)
+				r.Fault("input defines a setting below a setting that is a reference")
 			case 0:
 				in[strings.Join(p, ".")] = "dup"
 				r.Fault("input defines one setting twice (nested and dotted)")
